@@ -152,7 +152,7 @@ def run(ctx):
     res.rule = ('seeded histories; at several points every IKE_SA with keys on both endpoints receives forged cleartext (exchange types '
                 '34..38, 99 x request/response x IDs around both windows), bit flips and truncations of authentic datagrams, '
                 'reflections, messages under other keys; distinct = distinct (schedule, forgery); non-trivial = victim has keys')
-    n_hist = ctx.scale(14, 200)
+    n_hist = ctx.scale(60, 600)
     for k in range(n_hist):
         conf = (S.CONF_VARIANTS + [{'ike_lifetime': 50, 'ike_lifetime_b': 5000, 'dpd': 1000}])[k % (len(S.CONF_VARIANTS) + 1)]
         seed = ctx.rng.randrange(1 << 30)
